@@ -119,7 +119,10 @@ def cli(argv=sys.argv, mode='output'):
 
     with msg_prefix("c INPUT: "):
         interactive_msg(msg, filltext=70)
-    F = CNF.from_file(args.input)
+    try:
+        F = CNF.from_file(args.input)
+    except OSError as e:
+        raise CLIError("ERROR: cannot read the input: {}".format(e))
 
     # Default permutation
     polarity_flips='fixed' if args.no_polarity_flips else 'shuffle'
